@@ -1,5 +1,118 @@
-From Cam Require Import Outcome GenApiParse P_C17.
+(* C17 — Parsing preserves every declared node, property, default and reference.  Statements only; proofs in
+   proofs/P_C17.v.
 
+   Model: model/GenApiParse.v (genapi/src/parser/*.rs after the "fix:" commits 70ffa75 and fb880c0) over element
+   trees [xml]; [render] turns a declared node ([snode], records in mode [Src]: optional elements are options,
+   numbers carry their written form) into elements in schema order; [normalise] / [n_*] is what the accessors
+   must report (records in mode [Par], schema defaults filled in).
+   Vocabulary (P_C17.v): [wf_i64 / wf_u64 / wf_h64] the literal's value is inside the type (hexadecimal forms:
+   non-negative); [wf_f] a float text other than INF / -INF is handed to the float parser, [sniff_f] it is "NaN"
+   or does not start with a letter; [ident] starts with an ASCII letter, [ident_f] additionally is not INF / NaN,
+   [ident_b] is none of Yes / No / true / false; [leaf p sh nm ok] parser p reads nm x back from the element
+   holding the text sh x; [ileaf] the same for the ImmOrPNode sniffing parsers, literals and references;
+   [hn ts k] the next element of k (if any) carries none of the tags ts; [wf_snode] the well-formedness of a
+   declared node of the kinds Node, Category, Integer, Boolean, Command, Float, String, Port;
+   [twin_src s e] the MaskedIntReg declaration equivalent to entry e of structure s (entry's element if present,
+   else the structure's, pInvalidator and pError included); [limited s e] the KNOWN limitation: e spells out the
+   schema default of Visibility / IsDeprecated / ImposedAccessMode / AccessMode / Cachable / Streamable while s
+   declares another value; [seq_results] the children parsed one after the other. *)
+From Cam Require Import Outcome GenApiParse P_C17.
+From Coq Require Import Permutation.
+
+(* decimal and 0x / 0X hexadecimal literals (both digit cases) of every value of the type convert back to the
+   value; bare hexadecimal (EventID, ChunkID) likewise; Yes / No / true / false; INF, -INF, NaN and every other
+   float text reach the float parser unchanged *)
+Theorem C17_literals :
+  ((forall z, I64_MIN <= z <= I64_MAX -> convert_to_int (print_dec z) = Ok z) /\
+   (forall z (px : bool) dg, 0 <= z <= I64_MAX -> convert_to_int (48 :: (if px then 88 else 120) :: print_nat dg 16 z) = Ok z) /\
+   (forall z, 0 <= z <= U64_MAX -> convert_to_uint (print_dec z) = Ok z) /\
+   (forall z (px : bool) dg, 0 <= z <= U64_MAX -> convert_to_uint (48 :: (if px then 88 else 120) :: print_nat dg 16 z) = Ok z) /\
+   (forall z up, 0 <= z <= U64_MAX -> from_str_radix false 16 (print_nat up 16 z) = Ok z)) /\
+  ((forall l, convert_to_bool (sh_blit l) = Ok (bl_val l)) /\
+   convert_to_f64 L_INF = FvInf /\ convert_to_f64 L_NegINF = FvNegInf /\ convert_to_f64 L_NaN = FvText L_NaN /\
+   (forall f, wf_f f -> convert_to_f64 (sh_fval f) = f)).
+Proof. exact (conj literals_int literals_other). Qed.
+Print Assumptions C17_literals.
+
+(* the ImmOrPNode sniffing classifies every rendered literal as immediate and every identifier as a reference
+   (integers, floats, booleans), whatever the tag and the attributes of the element *)
+Theorem C17_sniffing :
+  ileaf p_imm_i64 sh_ilit il_val wf_i64 ident /\
+  ileaf p_imm_f64 sh_fval (fun x => x) wf_fs ident_f /\
+  ileaf p_imm_bool sh_blit bl_val tt_ok ident_b.
+Proof. exact (conj ileaf_i64 (conj ileaf_f64 ileaf_bool)). Qed.
+Print Assumptions C17_sniffing.
+
+(* NodeAttributeBase and NodeElementBase (shared by every node kind): every declared attribute and element,
+   present or absent, is read back with the schema default when absent; what follows is left untouched *)
+Theorem C17_bases : forall a e k,
+  parse_attr (r_attr a) = Ok (n_attr a) /\
+  (wf_eb e -> hn eb_tags k -> p_eb (r_eb e k) = Ok (n_eb e, k)).
+Proof. intros a e k. exact (conj (parse_attr_rt a) (p_eb_rt e k)). Qed.
+Print Assumptions C17_bases.
+
+(* ValueKind (Value | pValueCopy* pValue pValueCopy* | pIndex (ValueIndexed | pValueIndexed)* default), for any
+   literal type: copies before and after pValue are kept in order, every index and indexed value is kept *)
+Theorem C17_value_kind : forall (L L' : Type) (pT : P L') pimm (sh : L -> str) (nm : L -> L') okL okN v k,
+  leaf pT sh nm okL -> ileaf pimm sh nm okL okN -> wf_vk okL okN v -> hn [T_pValueCopy] k ->
+  p_vkind pT pimm (r_vk sh v k) = Ok (n_vk nm v, k).
+Proof. exact @p_vkind_rt. Qed.
+Print Assumptions C17_value_kind.
+
+(* round trip for the node kinds built on the element base: the rendered declaration is parsed into exactly the
+   normalised node, nothing else is stored or registered, the fresh-id counter is untouched.  (_partial: the
+   register kinds, Enumeration, IntSwissKnife and StructReg documents are tied to the model by the
+   correspondence only) *)
+Theorem C17_roundtrip_partial : forall fixed fresh n, wf_snode n ->
+  parse_node fixed fresh (render n) = Ok (mkPres [] (normalise n) [] fresh).
+Proof. exact roundtrip_partial. Qed.
+Print Assumptions C17_roundtrip_partial.
+
+(* ... and the stored node carries the declared name and kind *)
+Theorem C17_names_retrievable_partial : forall n, wf_snode n ->
+  exists d, normalise n = [d] /\ nd_name d = declared_name n /\ kind_code d = declared_kind n.
+Proof. exact names_partial. Qed.
+Print Assumptions C17_names_retrievable_partial.
+
+(* a StructReg is desugared into exactly the MaskedIntReg twins "entry's element if present, else the
+   structure's", for every mergeable property including pInvalidator and pError, outside the known limitation *)
+Theorem C17_struct_desugar : forall s,
+  eb_invs (rb_eb (st_rb s)) = [] -> Forall (fun e => limited s e = false) (st_entries s) ->
+  into_masked_int_regs true (n_struct s) = map (fun e => n_masked (twin_src s e)) (st_entries s).
+Proof. exact struct_desugar. Qed.
+Print Assumptions C17_struct_desugar.
+
+(* the pinned code: structure pInvalidator X, entry E0 pInvalidator Y, entry E1 none -> neither entry has an
+   invalidator and nothing is registered; after 70ffa75: [Y] and [X], both registered *)
+Theorem C17_struct_v0_refuted :
+  exists s, wf_eb (rb_eb (st_rb s)) /\
+    (forall p, parse_node false 0 (render (SnStructReg s)) = Ok p ->
+       map (fun d => match d with NdMaskedIntReg m => rb_invs (mr_rb m) | _ => [[0]] end) (pr_ret p) = [[]; []] /\
+       pr_invs p = []) /\
+    (exists p, parse_node false 0 (render (SnStructReg s)) = Ok p) /\
+    (exists p, parse_node true 0 (render (SnStructReg s)) = Ok p /\
+       map (fun d => match d with NdMaskedIntReg m => rb_invs (mr_rb m) | _ => [[0]] end) (pr_ret p) = [[[89]]; [[88]]] /\
+       pr_invs p = [([89], [69; 48]); ([88], [69; 49])]).
+Proof. exact struct_v0_refuted. Qed.
+Print Assumptions C17_struct_v0_refuted.
+
+(* the pinned TextView::view: an empty element panics, a comment-only element reports the comment *)
 Theorem C17_text_view_v0_refuted : text_view_v0 [] = Panic /\ (forall s, text_view_v0 [Comment s] = Ok s).
 Proof. exact text_view_v0_refuted. Qed.
 Print Assumptions C17_text_view_v0_refuted.
+
+(* a Group hands back what its element children produce one after the other: the same nodes (as a multiset:
+   nodes stored on the way come first), the same invalidator registrations in the same order, the same fresh-id
+   counter; and the members declared at top level are stored child by child in that order *)
+Theorem C17_group_flat : forall fixed,
+  (forall fresh attrs ch p, parse_node fixed fresh (Elem T_Group attrs ch) = Ok p ->
+     exists rs, seq_results fixed fresh ch = Ok rs /\
+       Permutation (pr_stored p ++ pr_ret p) (List.concat (map (fun q => pr_stored q ++ pr_ret q) rs)) /\
+       pr_invs p = List.concat (map pr_invs rs) /\
+       pr_fresh p = fold_left (fun _ q => pr_fresh q) rs fresh) /\
+  (forall c fresh st rs, seq_results fixed fresh c = Ok rs ->
+     parse_children fixed c fresh st =
+     (let? ns := store_all (s_nodes st) (List.concat (map (fun q => pr_stored q ++ pr_ret q) rs)) in
+      Ok (mkStore ns (s_invs st ++ List.concat (map pr_invs rs))))).
+Proof. intros fixed. exact (conj (group_flat fixed) (children_seq fixed)). Qed.
+Print Assumptions C17_group_flat.
